@@ -36,7 +36,11 @@ func descKind(d D) string {
 		return g
 	case "ptr":
 		if dbool(d, "nil") {
-			return "nilptr->" + dstr(d, "to")
+			to := dstr(d, "to")
+			if strings.HasPrefix(to, "marshaler:") {
+				to = "marshaler" // one defect whatever the marshaler type
+			}
+			return "nilptr->" + to
 		}
 		return "ptr"
 	case "iface":
